@@ -383,6 +383,19 @@ def dict_cases(rng):
     yield 'dict.list-values-set', "$dd.set(k, 'x y'.split(' ')).k", {'dd': dd}, lambda: ['x', 'y'], False
     yield 'dict.list-values-ctor', "dict(a => 'x y'.split(' ')).a.len() + dict([[k, [1].insert(0, 2)]]).k.len()", {'dd': dd}, lambda: 4, False
     yield 'dict.list-values-plus', "({a => 'x y'.split(' ')} + {b => [1].insert(0, 2)}).keys().len()", {'dd': dd}, lambda: 2, False
+    # dicts produced by functions (plain python dicts, list-valued) mixed with literal ones: equality, membership and
+    # the precedence of the right operand do not depend on how a dict was produced
+    yield 'dict.produced-plus-literal', "[1, 2].toDict($, $) + {1 => 5}", v, lambda: {1: 5, 2: 2}, False
+    yield 'dict.produced-set', "[1, 2].toDict($, $).set({2 => 7, 3 => 8})", v, lambda: {1: 1, 2: 7, 3: 8}, False
+    yield 'dict.deleted-plus-literal', "$dd.delete(zz) + {b => 9}", {'dd': dd}, lambda: dict(dd, b=9), False
+    yield 'dict.literal-plus-produced', "{1 => 5, 3 => 3} + [1, 2].toDict($, $)", v, lambda: {1: 1, 3: 3, 2: 2}, False
+    # (a list produced by a function and a list literal are different python types and compare unequal - characterised;
+    #  the comparisons below are between values produced the same way)
+    yield 'dict.eq-list-valued', "{a => [1].insert(0, 2)} = {a => [1].insert(0, 2)}", v, lambda: True, False
+    yield 'dict.neq-list-valued', "{a => 'x y'.split(' ')} != {a => 'x y'.split(' ')}", v, lambda: False, False
+    yield 'dict.in-list-valued', "{a => 'x y'.split(' ')} in [1, {a => 'x y'.split(' ')}]", v, lambda: True, False
+    yield 'dict.indexOf-list-valued', "[1, {a => [1, 2].splitAt(1)}].indexOf({a => [1, 2].splitAt(1)})", v, lambda: 1, False
+    yield 'dict.groupBy-values-eq', "[1, 2, 3].groupBy($ mod 2).toDict($[0], $[1]) = [1, 2, 3].groupBy($ mod 2).toDict($[0], $[1])", v, lambda: True, False
     yield 'dict.mergeWith-levels', '$d.mergeWith($e, maxLevels => 1)', v, lambda: ml.m_merge_with(d, e, max_levels=1), False
     yield 'dict.ctor', 'dict(%s => 1, b => $d)' % k, v, lambda: {k: 1, 'b': d} if k != 'b' else {'b': d}, False
     yield 'dict.ctor-items', 'dict(%s)' % seq(rng, '$d.items()'), v, lambda: dict(d), False
